@@ -275,7 +275,7 @@ def attemptRejoin : M Bool := do
   | none => pure false
   | some newId =>
     if s.id == newId then pure false
-    else if !newId.wins s.id then pure false
+    else if !renewWins s.policy newId s.id then pure false
     else do
       changeIdentity E newId s.policy
       emit (.notify (.rejoin newId))
@@ -365,12 +365,8 @@ def setConfig (cfg : Config) : M Unit := do
   if Gen.setConfigInvalid s.cfg cfg then throwE .invalidConfig
   else modS fun s => { s with cfg := cfg, sendCap := if s.cfg.mps != cfg.mps then cfg.mps else s.sendCap }
 
-/-- `Foca::probe_random_member` -/
-def probeRandomMember : M Unit := do
-  let s ← getS
-  if E.debug && s.conn != .connected then panicAt .probeNotConnected else
-  let incomplete := !s.probe.validate
-  if incomplete then modS fun s => { s with probe := s.probe.clear }
+/-- `probe_random_member`, first stage: the previous round's target, if it did not answer, becomes Suspect -/
+def probeSuspectFailed : M Unit := do
   let s ← getS
   let tf := s.probe.takeFailed
   modS fun s => { s with probe := tf.2 }
@@ -385,6 +381,9 @@ def probeRandomMember : M Unit := do
         emit (.timer s.cfg.s2d (.s2d failed.id failed.inc s.token))
     | none => pure ()
   | none => pure ()
+
+/-- `probe_random_member`, second stage: the next member of the round-robin is pinged -/
+def probeStartNext : M Unit := do
   match ← membersNext with
   | some member =>
     modS fun s => { s with probe := s.probe.start member }
@@ -392,6 +391,15 @@ def probeRandomMember : M Unit := do
     sendMessage E member.id (.ping s.probe.number)
     emit (.timer s.cfg.probeRtt (.indirect member.id s.token))
   | none => pure ()
+
+/-- `Foca::probe_random_member` -/
+def probeRandomMember : M Unit := do
+  let s ← getS
+  if E.debug && s.conn != .connected then panicAt .probeNotConnected else
+  let incomplete := !s.probe.validate
+  if incomplete then modS fun s => { s with probe := s.probe.clear }
+  probeSuspectFailed E
+  probeStartNext E
   let s ← getS
   emit (.timer s.cfg.probePeriod (.probe s.token))
   if incomplete then throwE .incompleteProbe
